@@ -23,17 +23,20 @@ PROPERTY = "C16"
 KF_RADIUS = "radius_form_oblique_chord"
 
 
-def setup(w):
+def setup(w, inch=False):
     state = w.env.ExcludeRegionState(NullLogger())
     h = w.env.GcodeHandlers(state, NullLogger())
     h.handleGcode("G28", "G28", None)
+    if inch:
+        h.handleGcode("G20", "G20", None)
     x, y = w.real("x0"), w.real("y0")
     h.handleGcode("G1 X%s Y%s" % (w.key(x), w.key(y)), "G1", None)
     return state, h, x, y
 
 
 def scen_ij(w, S=3):
-    state, h, x, y = setup(w)
+    inch = w.flag("inches")
+    state, h, x, y = setup(w, inch)
     i, j, ex, ey = w.real("i"), w.real("j"), w.real("ex"), w.real("ey")
     cw = w.flag("clockwise")
     r2 = i * i + j * j
